@@ -5,6 +5,7 @@ from pyvc.contract import Contract
 from pyvc.stubs import USED
 from pyvc.values import *  # noqa
 from pyvc.builtins import ufunc, S, I, Bz
+from pyvc.engine import Unsupported
 from contracts import c02, c05
 
 RT = "baize/routing.py"
@@ -179,3 +180,104 @@ def register(reg):
     for c in (SUBPATHS_INIT, SUBPATHS_SEARCH, A_SUBPATHS_CALL, W_SUBPATHS_CALL):
         reg.add(c)
     reg._opaque_call["App"] = app_call
+    register_hosts(reg)
+
+
+# =========================================================================== host dispatch
+PATTERN = Opaque("Pattern")
+HOSTS_T = List(Tup(PATTERN, APP))
+
+
+def re_full(p, s):
+    return ufunc("re_fullmatch", opaque_sort("Pattern"), S, Bz)(p, s)
+
+
+def pattern_fullmatch(ev, recv, args, kwargs, node):
+    """compiled pattern .fullmatch(s): None or a match object, by s in L(pattern) (A-re-2)"""
+    USED.add("A-re-2")
+    ok = re_full(recv.t, args[0].t)
+    if ev.pure:
+        raise Unsupported("fullmatch in a pure context")
+    if ev.st.decide(ok):
+        return ev.st.alloc(Obj("Match", {}))
+    return NONE
+
+
+HOSTS_SEARCH = Contract(
+    id="BaseHosts.search", file=RT, qualname="BaseHosts.search", props=["C09"],
+    params={"self": ObjT(RT + ":BaseHosts", _host_array=HOSTS_T), "host": Str},
+    returns=Opt(APP), ufuncs={"re_fullmatch": ([PATTERN, Str], Bool)},
+    ensures={
+        "miss": "implies(is_none(result), forall(k, 0, len(self._host_array), not re_fullmatch(self._host_array[k][0], host)))",
+        "first_match": "implies(not is_none(result), exists(k, 0, len(self._host_array), result == self._host_array[k][1] and "
+                       "re_fullmatch(self._host_array[k][0], host) and forall(j, 0, k, not re_fullmatch(self._host_array[j][0], host))))",
+    },
+    invariants={1: ["forall(j, 0, IDX, not re_fullmatch(SEQ[j][0], host))"]},
+    canaries={"always_first": "is_none(result) or result == self._host_array[0][1]"},
+    assumptions=["A-re-2"],
+)
+
+H_DEFS = dict(c02.A_DEFS)
+H_DEFS.update({
+    "some(h)": "exists(k, 0, len(self._host_array), re_fullmatch(self._host_array[k][0], h))",
+    "first(k, h)": "re_fullmatch(self._host_array[k][0], h) and forall(j, 0, k, not re_fullmatch(self._host_array[j][0], h))",
+    "is_last(name, v)": c02.A_CALL_DEFS["is_last(name, v)"],
+})
+H_UF = dict(c02.HUF)
+H_UF.update({"re_fullmatch": ([PATTERN, Str], Bool)})
+
+
+def small_init_inline(file_):
+    return Contract(id=file_.split("/")[1] + ".SmallResponse.__init__", file=file_, qualname="SmallResponse.__init__", inline=True,
+                    notes="constructor, executed inline")
+
+
+A_HOSTS_CALL = Contract(
+    id="asgi.Hosts.__call__", file=AR, qualname="Hosts.__call__", props=["C09"],
+    params={"self": ObjT(AR + ":Hosts", _host_array=HOSTS_T), "scope": Dict(type=Str, headers=List(Tup(Bytes, Bytes))),
+            "receive": Opaque("Receive"), "send": TFunc(c02.send_stub, "send")},
+    ghosts={"tr": c02.TR_T, "out": c02.OUT_T, "calls": CALLS_T, "body": Bytes, "hh": Str},
+    requires=["calls.n == 0", "tr.n_start == 0", "out.n_body == 0", "not out.closed", "out.out_len == 0",
+              "scope['type'] != 'lifespan'", "is_last(b'host', hh)"],
+    defs=H_DEFS, ufuncs=H_UF,
+    ghost_modifies=["tr", "out", "calls"],
+    ensures={
+        "miss.404": "implies(not some(hh), tr.n_start == 1 and tr.code == 404 and out.closed and calls.n == 0)",
+        "hit": "implies(some(hh), calls.n == 1 and tr.n_start == 0 and exists(k, 0, len(self._host_array), first(k, hh) and "
+               "calls.app == self._host_array[k][1]))",
+    },
+    invariants={1: [
+        "(host == '' and forall(k, 0, IDX, SEQ[k][0] != b'host')) or exists(k, 0, IDX, SEQ[k][0] == b'host' and "
+        "SEQ[k][1] == host.encode('latin-1') and forall(j, k + 1, IDX, SEQ[j][0] != b'host'))"]},
+    canaries={"never_dispatches": "calls.n == 0"},
+    assumptions=["A-server", "A-re-2"],
+)
+
+WH_DEFS = dict(c02.HDEFS)
+WH_DEFS.update({k: v for k, v in H_DEFS.items() if k in ("some(h)", "first(k, h)")})
+WH_DEFS.update({"hh()": "old(environ['HTTP_HOST'] if has(environ, 'HTTP_HOST') else '')"})
+
+W_HOSTS_CALL = Contract(
+    id="wsgi.Hosts.__call__", file=WR, qualname="Hosts.__call__", props=["C09"], generator=True,
+    params={"self": ObjT(WR + ":Hosts", _host_array=HOSTS_T), "environ": Dict(HTTP_HOST=Maybe_(Str)),
+            "start_response": TFunc(c02.start_response_stub, "start_response")},
+    ghosts={"tr": c02.TR_T, "out": c02.OUT_T, "calls": CALLS_T, "body": Bytes},
+    requires=["calls.n == 0", "tr.n_start == 0", "out.n_yield == 0", "out.out_len == 0"],
+    defs=WH_DEFS, ufuncs=H_UF, consts=c02.wsgi_consts(),
+    on_yield_from=yield_from_app, on_yield=c02.call_yield, yield_mods=("out",),
+    ghost_modifies=["tr", "out", "calls"],
+    ensures={
+        "miss.404": "implies(not some(hh()), tr.n_start == 1 and tr.status == status_line(404) and calls.n == 0)",
+        "hit": "implies(some(hh()), calls.n == 1 and tr.n_start == 0 and exists(k, 0, len(self._host_array), first(k, hh()) and "
+               "calls.app == self._host_array[k][1]))",
+    },
+    canaries={"never_dispatches": "calls.n == 0"},
+    assumptions=["A-server", "A-re-2"],
+)
+
+
+def register_hosts(reg):
+    for c in (HOSTS_SEARCH, A_HOSTS_CALL, W_HOSTS_CALL, small_init_inline("baize/asgi/responses.py"),
+              small_init_inline("baize/wsgi/responses.py")):
+        reg.add(c)
+    reg._opaque_method[("Pattern", "fullmatch")] = pattern_fullmatch
